@@ -3,7 +3,6 @@
 mod writer_test;
 
 use crate::format::CoordIndex;
-use crate::format::solution::activity_matcher::get_job_tag;
 use crate::format::solution::model::Timing;
 use crate::format::solution::*;
 use vrp_core::construction::enablers::{ReservedTimesIndex, get_route_intervals};
@@ -148,8 +147,13 @@ fn create_tour(
                 let is_break = activity_type == "break";
 
                 let job_tag = act.job.as_ref().and_then(|single| {
-                    get_job_tag(single, (act.place.location, (act.place.time.clone(), start.schedule.departure)))
-                        .cloned()
+                    // NOTE: use the tag of the place which is actually used by the activity: time windows of
+                    // different places can intersect, so matching by location and time only is ambiguous
+                    single
+                        .dimens
+                        .get_place_tags()
+                        .and_then(|tags| tags.iter().find(|(place_idx, _)| *place_idx == act.place.idx))
+                        .map(|(_, tag)| tag.clone())
                 });
                 let job_id = match activity_type.as_str() {
                     "pickup" | "delivery" | "replacement" | "service" => {
